@@ -12,6 +12,7 @@
 //     of all header edits, assigning in input order (later wins);
 //   - all inputs no-ops                 => a no-op (a header modification with
 //     no edits is tolerated).
+//
 // Response side ("resp-fold" / "resp-spoe"):
 //   - some input is not a no-op => the result is not a no-op, and dropping the
 //     no-ops from the sequence does not change what is sent to the proxy;
@@ -22,6 +23,7 @@
 //     result is one of the two kinds, no header is invented, and a resulting
 //     modification carries at least the later-wins union of the modifications
 //     after the last retry and at most the union of all of them.
+//
 // Encoding ("req-enc" / "resp-enc"): the variables produced by the resulting
 // action's own Req/RespToSpoeActions carry its kind, status, body and, when the
 // header names/values satisfy the side condition of the dump (no ':' / newline
@@ -202,12 +204,18 @@ func headersAgree(v view, want map[string]string) (ok bool, seen string) {
 }
 
 type hitter struct {
-	k    *Case
+	k    *Case // the sequence the expectations are computed from
+	rep  *Case // the case to report when it is not k (a session)
+	pre  string
 	hits []c.Hit
 }
 
 func (h *hitter) add(sig, dem, obs string) {
-	h.hits = append(h.hits, c.Hit{Signature: sig, Demanded: dem, Observed: obs, Case: h.k})
+	rep := h.k
+	if h.rep != nil {
+		rep = h.rep
+	}
+	h.hits = append(h.hits, c.Hit{Signature: sig, Demanded: h.pre + dem, Observed: obs, Case: rep})
 }
 
 func monitor(o *c.Out, k *Case) []c.Hit {
@@ -224,6 +232,14 @@ func monitor(o *c.Out, k *Case) []c.Hit {
 	case "legacy_resp":
 		checkResp(h, "legacy-resp-spoe", viewOfVars("resp", k.Vars))
 		return h.hits
+	}
+	for _, m := range k.MutatedFold {
+		h.add("input-mutated:"+k.Side+"-fold", "a fold leaves the objects its input actions reference (header maps, "+
+			"remove lists) as they were: the producers keep them for later transactions", m)
+	}
+	for _, m := range k.MutatedSpoe {
+		h.add("input-mutated:"+k.Side+"-spoe", "the routing fold leaves the objects its input actions reference "+
+			"(header maps, remove lists) as they were: the producers keep them for later transactions", m)
 	}
 	if k.Side == "req" {
 		checkReq(h, "req-fold", viewOfRes(k.Result))
